@@ -353,6 +353,30 @@ theorem C02_dpda_pick_irrelevant (M : DPDA σ α γ) (hdet : ¬ M.TwoMoves)
   unfold DPDA.readStepwise
   simp only [M.loop_pick hdet pick pick']
 
+/-- `accepts_input` / `read_input` of a DPDA: True with the last yielded configuration when
+the reader returns, False / `RejectionException` when it raises, never another exception. -/
+theorem C02_dpda_accepts_input (M : DPDA σ α γ) (pick : Config σ α γ → Bool) (fuel : Nat) (w : List α) :
+    (acceptsInput (M.readStepwise pick fuel w) = some (.ok true) ↔
+      (M.readStepwise pick fuel w).2 = .returned) ∧
+    (acceptsInput (M.readStepwise pick fuel w) = some (.ok false) ↔
+      (M.readStepwise pick fuel w).2 = .raised (.lib .rejectionException)) ∧
+    (acceptsInput (M.readStepwise pick fuel w) = none ↔ (M.readStepwise pick fuel w).2 = .outOfFuel) ∧
+    (∀ e, acceptsInput (M.readStepwise pick fuel w) ≠ some (.error e)) ∧
+    ((M.readStepwise pick fuel w).2 = .returned →
+      readInput (M.readStepwise pick fuel w) = (M.readStepwise pick fuel w).1.getLast?.map .ok) := by
+  have S := M.readStepwise_spec pick fuel w
+  have hne : (M.readStepwise pick fuel w).1.getLast? ≠ none := by
+    intro h; have := S.lenPos; rw [List.getLast?_eq_none_iff] at h; rw [h] at this; simp at this
+  cases hout : (M.readStepwise pick fuel w).2 with
+  | outOfFuel => simp [acceptsInput, readInput, hout]
+  | raised e =>
+    obtain rfl := S.onlyRej e hout
+    simp [acceptsInput, readInput, hout]
+  | returned =>
+    cases hl : (M.readStepwise pick fuel w).1.getLast? with
+    | none => exact absurd hl hne
+    | some c => simp [acceptsInput, readInput, hout, hl]
+
 /-! ## DPDA = NPDA with the same transition table -/
 
 /-- `DPDA.lift` is "the NPDA with the same transition table": same move relation (each
